@@ -1,9 +1,206 @@
 (** C16 - inputs given on a longer period are conserved when spread over shorter ones.
-    Only statements here; proofs are in proofs/SetInputProofs.v. *)
+    Only statements here; proofs are in proofs/SetInputProofs.v, the model (and the
+    vocabulary: [ent], [qsum], [val], [known_tiles], [n_unknown], [remainder], [share],
+    [wf_holder], [tile_ok], [not_after_end]) in model/SetInput.v.
+
+    Reading guide.  [h] maps sub-period keys to arrays (one rational per entity);
+    [T] is the list of sub-periods the helper walks over ([walk_tiles v P], or any list of
+    keys that [_set] accepts: the theorems need no calendar fact);
+    [val v n h i t] is entity [i]'s value for [t];
+    [remainder .. i] = amount_i - sum of the values already known on [T];
+    [n_unknown] = number of sub-periods of [T] without a value; [share] = remainder / n_unknown;
+    [cast] is the conversion to the variable's dtype (identity for float - binary32 rounding
+    is not modelled - truncation toward zero for int). *)
 From Coq Require Import ZArith QArith List Bool.
 From Verif Require Import Base Cal Tables Period SetInput SetInputProofs.
+Import ListNotations.
 Open Scope Z_scope.
 
-Theorem holder_keys_decidable : forall p q, period_eqb p q = true <-> p = q.
-Proof. exact period_eqb_eq. Qed.
-Print Assumptions holder_keys_decidable.
+(** Divide rule over any list [T] of sub-period keys, any holder.
+    Some sub-period unknown: the call succeeds; every known value (on [T] or elsewhere) is
+    untouched; nothing outside [T] appears; each unknown sub-period receives, for every entity,
+    [cast (remainder / n_unknown)]; and when that share is representable in the dtype, the
+    values over [T] sum to the amount.  All known: accepted without change iff the amount is
+    the sum of the known values, [ValueError] otherwise. *)
+Theorem divide_tiles_conserves :
+  forall (v : var) (n : Z) (h : holder) (T : list period) (a : arr),
+  eternal v = false -> wf_holder n h -> Z.of_nat (length a) = n -> Forall (tile_ok v) T ->
+  (0 < n_unknown v h T ->
+     exists h', divide_tiles v n h T a = Ok h' /\ wf_holder n h'
+       /\ (forall q x, get h q = Some x -> get h' q = Some x)
+       /\ (forall q, ~ In q T -> get h' q = get h q)
+       /\ (forall t, In t T -> get h t = None ->
+             exists x, get h' t = Some x /\ length x = length a /\
+               forall i, (i < length a)%nat -> (ent i x == cast (v_type v) (share v n h T a i))%Q)
+       /\ (forall i, (i < length a)%nat ->
+             (cast (v_type v) (share v n h T a i) == share v n h T a i)%Q ->
+             (qsum (map (val v n h' i) T) == ent i a)%Q))
+  /\ (n_unknown v h T = 0 ->
+       ((forall i, (i < length a)%nat -> (remainder v n h T a i == 0)%Q) ->
+          divide_tiles v n h T a = Ok h
+          /\ forall i, (i < length a)%nat -> (qsum (map (val v n h i) T) == ent i a)%Q)
+       /\ ((exists i, (i < length a)%nat /\ ~ (remainder v n h T a i == 0)%Q) ->
+          divide_tiles v n h T a = Err EValue)).
+Proof. exact divide_tiles_conserves_proof. Qed.
+Print Assumptions divide_tiles_conserves.
+
+(** The same for the real entry point [Simulation.set_input] of a variable with the divide
+    rule, in the state reached by ANY history [steps] of earlier set_input calls (accepted,
+    refused or dropped), [T] being the sub-periods the helper walks over. *)
+Theorem divide_conserves :
+  forall (v : var) (n : Z) (steps : list (period * arr)) (P : period) (a : arr) (T : list period),
+  v_rule v = RDivide -> eternal v = false -> not_after_end v P -> p_unit P <> Eternity ->
+  Z.of_nat (length a) = n -> walk_tiles v P = Ok T ->
+  let h := run_steps v n [] steps in
+  let a' := map (cast (v_type v)) a in
+  (0 < n_unknown v h T ->
+     exists h', sim_set_input v n h P a = Ok h' /\ wf_holder n h'
+       /\ (forall q x, get h q = Some x -> get h' q = Some x)
+       /\ (forall q, ~ In q T -> get h' q = get h q)
+       /\ (forall t, In t T -> get h t = None ->
+             exists x, get h' t = Some x /\ length x = length a /\
+               forall i, (i < length a)%nat -> (ent i x == cast (v_type v) (share v n h T a' i))%Q)
+       /\ (forall i, (i < length a)%nat ->
+             (cast (v_type v) (share v n h T a' i) == share v n h T a' i)%Q ->
+             (qsum (map (val v n h' i) T) == ent i a')%Q))
+  /\ (n_unknown v h T = 0 ->
+       ((forall i, (i < length a)%nat -> (remainder v n h T a' i == 0)%Q) ->
+          sim_set_input v n h P a = Ok h
+          /\ forall i, (i < length a)%nat -> (qsum (map (val v n h i) T) == ent i a')%Q)
+       /\ ((exists i, (i < length a)%nat /\ ~ (remainder v n h T a' i == 0)%Q) ->
+          sim_set_input v n h P a = Err EValue)).
+Proof. exact divide_conserves_proof. Qed.
+Print Assumptions divide_conserves.
+
+(** Float variables: the sum over the sub-periods is the amount, without side condition. *)
+Theorem divide_conserves_float :
+  forall (v : var) (n : Z) (steps : list (period * arr)) (P : period) (a : arr) (T : list period),
+  v_type v = VFloat ->
+  v_rule v = RDivide -> eternal v = false -> not_after_end v P -> p_unit P <> Eternity ->
+  Z.of_nat (length a) = n -> walk_tiles v P = Ok T ->
+  let h := run_steps v n [] steps in
+  0 < n_unknown v h T ->
+  exists h', sim_set_input v n h P a = Ok h'
+    /\ forall i, (i < length a)%nat -> (qsum (map (val v n h' i) T) == ent i a)%Q.
+Proof. exact divide_conserves_float_proof. Qed.
+Print Assumptions divide_conserves_float.
+
+(** Dispatch rule over any list of sub-period keys: always accepted; every unknown sub-period
+    receives the value itself; known values are untouched; nothing outside [T] appears. *)
+Theorem dispatch_tiles_repeats :
+  forall (v : var) (n : Z) (h : holder) (T : list period) (a : arr),
+  eternal v = false -> wf_holder n h -> Z.of_nat (length a) = n -> Forall (tile_ok v) T ->
+  exists h', dispatch_tiles v n h T a = Ok h' /\ wf_holder n h'
+    /\ (forall q x, get h q = Some x -> get h' q = Some x)
+    /\ (forall q, ~ In q T -> get h' q = get h q)
+    /\ (forall t, In t T -> get h t = None -> get h' t = Some (map (cast (v_type v)) a)).
+Proof. exact dispatch_tiles_repeats. Qed.
+Print Assumptions dispatch_tiles_repeats.
+
+(** The same for [Simulation.set_input] of a variable with the dispatch rule after any history. *)
+Theorem dispatch_repeats :
+  forall (v : var) (n : Z) (steps : list (period * arr)) (P : period) (a : arr) (T : list period),
+  v_rule v = RDispatch -> eternal v = false -> not_after_end v P -> p_unit P <> Eternity ->
+  Z.of_nat (length a) = n -> walk_tiles v P = Ok T ->
+  let h := run_steps v n [] steps in
+  exists h', sim_set_input v n h P a = Ok h' /\ wf_holder n h'
+    /\ (forall q x, get h q = Some x -> get h' q = Some x)
+    /\ (forall q, ~ In q T -> get h' q = get h q)
+    /\ (forall t, In t T -> get h t = None -> get h' t = Some (map (cast (v_type v)) a)).
+Proof. exact dispatch_repeats_proof. Qed.
+Print Assumptions dispatch_repeats.
+
+(** Order effects: in a history of set_input calls on a variable with either rule, a value
+    that is known at some point is never changed by any later call - a later long input only
+    fills what is still unknown. *)
+Theorem later_inputs_only_fill_unknown :
+  forall (v : var) (n : Z) (s1 s2 : list (period * arr)) (q : period) (x : arr),
+  v_rule v <> RNone ->
+  get (run_steps v n [] s1) q = Some x -> get (run_steps v n [] (s1 ++ s2)) q = Some x.
+Proof. exact later_inputs_only_fill_unknown_proof. Qed.
+Print Assumptions later_inputs_only_fill_unknown.
+
+(** The sub-periods the helpers walk over are keys that [_set] accepts. *)
+Theorem walked_tiles_are_settable :
+  forall (v : var) (P : period) (T : list period), walk_tiles v P = Ok T -> Forall (tile_ok v) T.
+Proof. exact walk_tiles_ok. Qed.
+Print Assumptions walked_tiles_are_settable.
+
+(** [calculate_add] of an input variable is the entity-wise sum over the sub-periods. *)
+Theorem sum_tiles_is_entitywise_sum :
+  forall (v : var) (n : Z) (h : holder), eternal v = false -> wf_holder n h ->
+  forall (T : list period) (i : nat), (ent i (sum_tiles v n h T) == qsum (map (val v n h i) T))%Q.
+Proof. exact sum_tiles_ent. Qed.
+Print Assumptions sum_tiles_is_entitywise_sum.
+
+(** * Non-vacuity: the hypotheses are satisfiable and the branches are taken *)
+
+(** March = (5, 1/2) is known; 2019 := (27, 6) gives the 11 other months (2, 1/2) each,
+    March is untouched, calculate_add(2019) = (27, 6). *)
+Example divide_conserves_nonvacuous :
+  let v := ex_month VFloat RDivide in
+  let steps := [(ex_m 3, [5 # 1; 1 # 2])] in
+  let h := run_steps v 2 [] steps in
+  let r := sim_set_input v 2 h ex_2019 [27 # 1; 6 # 1] in
+  exists T, walk_tiles v ex_2019 = Ok T /\ length T = 12%nat /\ NoDup T
+    /\ v_rule v = RDivide /\ eternal v = false /\ not_after_end v ex_2019 /\ p_unit ex_2019 <> Eternity
+    /\ n_unknown v h T = 11
+    /\ holds r (ex_m 1) [2 # 1; 1 # 2] = true /\ holds r (ex_m 12) [2 # 1; 1 # 2] = true
+    /\ holds r (ex_m 3) [5 # 1; 1 # 2] = true
+    /\ subperiods ex_2019 Month = Ok T
+    /\ match r with Ok h' => rmap (fun s => arr_eqb s [27 # 1; 6 # 1]) (calculate_add v 2 h' ex_2019) | Err e => Err e end
+       = Ok true.
+Proof.
+  eexists. split; [vm_compute; reflexivity|].
+  split; [reflexivity|]. split; [repeat constructor; cbn; intuition discriminate|].
+  repeat split; try (vm_compute; reflexivity). discriminate.
+Qed.
+
+(** All three years known with sum (6); amount 7 is refused, amount 6 is accepted unchanged. *)
+Example divide_contradiction_nonvacuous :
+  let v := ex_year_var VInt RDivide in
+  let steps := [(ex_y 2019, [1 # 1]); (ex_y 2020, [2 # 1]); (ex_y 2021, [3 # 1])] in
+  let h := run_steps v 1 [] steps in
+  let P : period := (Year, (2019, 1, 1), 3) in
+  exists T, walk_tiles v P = Ok T /\ n_unknown v h T = 0
+    /\ ~ (remainder v 1 h T [7 # 1] 0 == 0)%Q /\ sim_set_input v 1 h P [7 # 1] = Err EValue
+    /\ (remainder v 1 h T [6 # 1] 0 == 0)%Q /\ sim_set_input v 1 h P [6 # 1] = Ok h.
+Proof.
+  eexists. split; [vm_compute; reflexivity|].
+  split; [vm_compute; reflexivity|]. split; [vm_compute; discriminate|].
+  split; [vm_compute; reflexivity|]. split; vm_compute; reflexivity.
+Qed.
+
+(** The side condition of the int case is needed: 10 over 12 months is truncated to 0. *)
+Example int_share_is_truncated :
+  let v := ex_month VInt RDivide in
+  let r := sim_set_input v 1 [] ex_2019 [10 # 1] in
+  holds r (ex_m 1) [0 # 1] = true /\ holds r (ex_m 12) [0 # 1] = true
+  /\ ~ (cast VInt (10 # 12) == 10 # 12)%Q.
+Proof. split; [vm_compute; reflexivity|]. split; [vm_compute; reflexivity|]. vm_compute. discriminate. Qed.
+
+(** March = 5 is known; dispatching 10 over 2019 gives 10 to every other month - also to the
+    months after March (the defect repaired by the fix: commit) - and leaves March alone. *)
+Example dispatch_repeats_nonvacuous :
+  let v := ex_month VFloat RDispatch in
+  let steps := [(ex_m 3, [5 # 1])] in
+  let h := run_steps v 1 [] steps in
+  let r := sim_set_input v 1 h ex_2019 [10 # 1] in
+  exists T, walk_tiles v ex_2019 = Ok T /\ length T = 12%nat
+    /\ v_rule v = RDispatch /\ eternal v = false /\ not_after_end v ex_2019 /\ p_unit ex_2019 <> Eternity
+    /\ holds r (ex_m 1) [10 # 1] = true /\ holds r (ex_m 4) [10 # 1] = true
+    /\ holds r (ex_m 12) [10 # 1] = true /\ holds r (ex_m 3) [5 # 1] = true.
+Proof.
+  eexists. split; [vm_compute; reflexivity|].
+  repeat split; try (vm_compute; reflexivity). discriminate.
+Qed.
+
+(** Two long inputs in both orders: the first one wins on the overlap. *)
+Example order_effect_nonvacuous :
+  let v := ex_month VFloat RDivide in
+  let roll : period := (Year, (2019, 7, 1), 1) in
+  let h1 := run_steps v 1 [] [(ex_2019, [12 # 1]); (roll, [30 # 1])] in
+  let h2 := run_steps v 1 [] [(roll, [30 # 1]); (ex_2019, [12 # 1])] in
+  holds (Ok h1) (ex_m 8) [1 # 1] = true /\ holds (Ok h1) (Month, (2020, 2, 1), 1) [4 # 1] = true
+  /\ holds (Ok h2) (ex_m 8) [5 # 2] = true /\ holds (Ok h2) (ex_m 2) [-1 # 2] = true.
+Proof. repeat split; vm_compute; reflexivity. Qed.
